@@ -782,7 +782,10 @@ func (g *generator) enterNextFinallyFrame() (canContinue bool, ex *Exception) {
 		if ex != nil {
 			// an iterator's return() threw: the exception is handled by the generator's own try statements, or
 			// completes the generator (it must not escape as a Go panic past the frames pushed by enterNext())
-			ex = vm.handleThrow(ex)
+			if ex = vm.handleThrow(ex); ex != nil {
+				// return() was called while suspended inside a finally block entered by an earlier return()
+				ex = g.leaveReturnFinally(ex)
+			}
 			return ex == nil, ex
 		}
 		if tf.finallyPos >= 0 {
@@ -807,12 +810,15 @@ func (g *generator) enterNextFinallyFrame() (canContinue bool, ex *Exception) {
 // enclosing try statements of the generator. It returns nil if one of them handles it.
 func (g *generator) leaveReturnFinally(ex *Exception) *Exception {
 	vm := g.vm
-	if g.returning != nil && len(vm.tryStack) > int(g.tryStackLen) {
-		if tf := &vm.tryStack[len(vm.tryStack)-1]; tf.catchPos == tryPanicMarker && tf.finallyRet == -2 {
-			vm.popTryFrame()
-			g.returning = nil
-			return vm.handleThrow(ex)
+	// nested return() calls can leave several such frames
+	for ex != nil && len(vm.tryStack) > int(g.tryStackLen) {
+		tf := &vm.tryStack[len(vm.tryStack)-1]
+		if tf.catchPos != tryPanicMarker || tf.finallyRet != -2 {
+			break
 		}
+		vm.popTryFrame()
+		g.returning = nil
+		ex = vm.handleThrow(ex)
 	}
 	return ex
 }
